@@ -8,6 +8,7 @@ package mtproto
 import (
 	"context"
 	"io"
+	"math/big"
 
 	"github.com/xelaj/mtproto/internal/encoding/tl"
 	"github.com/xelaj/mtproto/internal/mtproto/objects"
@@ -49,4 +50,16 @@ func check(err error) {
 	if err != nil {
 		panic(err)
 	}
+}
+
+// fixedSizeBytes returns big endian bytes of n, left padded by zeros up to size (big.Int.Bytes drops leading
+// zero bytes, but nonces, hashes and keys are fixed size numbers)
+func fixedSizeBytes(n *big.Int, size int) []byte {
+	b := n.Bytes()
+	if len(b) >= size {
+		return b
+	}
+	res := make([]byte, size)
+	copy(res[size-len(b):], b)
+	return res
 }
